@@ -202,11 +202,22 @@ def method_unit(prop, fn, doms, on='regs', spec=None, contract=None, contracts=N
         buf = io.StringIO()
         raised = None
         r1 = None
+        pre_bad, undo = [], []
+        if ob.get('kind') == 'pre@callsite':
+            from . import step_replay
+            pre_bad, undo = step_replay.watch_precondition(ob['label'])
         try:
-            with contextlib.redirect_stdout(buf):
-                r1 = fn(target, *args)
-        except Exception as e:      # noqa
-            raised = e
+            try:
+                with contextlib.redirect_stdout(buf):
+                    r1 = fn(target, *args)
+            except Exception as e:      # noqa
+                raised = e
+        finally:
+            for o_, k_, v_ in undo:
+                setattr(o_, k_, v_)
+        if ob.get('kind') == 'pre@callsite':
+            lines.append('call-site arguments violating the precondition of %s: %s' % (ob['label'], pre_bad[:3]))
+            return bool(pre_bad), '\n'.join(lines)
         u1 = 'unpredictable' in buf.getvalue()
         fin = MC2.read_native(cpu, memarch, nregions)
         if spec is None:
